@@ -97,6 +97,7 @@ type result struct {
 	// instrumented run only
 	notReverted bool   // the outermost frame returned an error after taking a snapshot that it never reverted
 	faultOp     string // the operation that was executing when the run panicked
+	childErr    string // error of the last failed frame at depth 2 (layer F)
 	ghosts      int    // observation: reverted nested frames whose balance records survived
 	ghostOpener string
 	steps       uint64
@@ -227,6 +228,7 @@ func run(w *world, ref *state.StateDB, preRoot common.Hash, code []byte, c confi
 	if p != nil {
 		r.steps, r.exceeded, r.frames, r.maxDepth, r.reverts = p.steps, p.exceeded, p.nframes, p.maxDepth, p.nreverts
 		r.ghosts, r.ghostOpener = p.ghostRecords, p.ghostOpener
+		r.childErr = p.depth2Err
 		if r.panicked && p.curSet {
 			r.faultOp = p.curOp.String()
 			if strings.HasPrefix(r.faultOp, "Missing") {
@@ -528,4 +530,44 @@ func sortStrings(l []string) {
 			l[j], l[j-1] = l[j-1], l[j]
 		}
 	}
+}
+
+// compareWithControl (layer F): a is the run whose child is <prefix>;<failure>, ctl the control run whose child is
+// the bare <failure>. If a's child failed (the parent stored status 0, i.e. did not write slot 1 - or the whole
+// transaction failed), everything observable must equal the control run: error, return data, world (storage,
+// balances, token balances, nonces, code, existence, self-destruct marks), logs, refund counter and - unless the
+// failure is REVERT, which returns the gas the prefix did not use - the gas left. Zero-valued token entries are
+// not compared here: what a reverted frame does to them is judged under the narrow keys
+// failed-frame-leaves-state:token-zero-entry-left / -lost.
+func compareWithControl(a, ctl *result, revertKind bool) (string, string) {
+	if ctl.post == nil || ctl.panicked || ctl.canceled {
+		return "", ""
+	}
+	for _, l := range a.post.lines {
+		if strings.HasPrefix(l, "self/storage/01:") {
+			return "", "" // the child succeeded (the prefix halted it): not a failed child
+		}
+	}
+	switch {
+	case a.err != ctl.err:
+		return "error", fmt.Sprintf("parent ends with %q, but with %q when the failing child does nothing before failing (world: %s / control: %s)", a.err, ctl.err, a.post, ctl.post)
+	case !bytes.Equal(a.ret, ctl.ret):
+		return "return-data", fmt.Sprintf("parent returns %x, control %x", a.ret, ctl.ret)
+	}
+	cl, det := a.post.diff(ctl.post)
+	var keep []string
+	for _, c := range cl {
+		if !strings.HasPrefix(c, "token-zero-entry") {
+			keep = append(keep, c)
+		}
+	}
+	if len(keep) > 0 {
+		return "state:" + strings.Join(residueClasses(keep), "+"), "the world after the transaction differs from the control run (first = with prefix, second = control): " + det
+	}
+	// Gas left is NOT compared: a prefix can turn the child's failure into a revert-type one that returns the
+	// unused gas (TRANSFERTOKEN without funds; ISSUE followed by a successful end, which the interpreter converts
+	// into ExecutionReverted when the child does not answer decimals()), so the child's consumption legitimately
+	// depends on the prefix. Gas is the one thing a failed frame may leave behind.
+	_ = revertKind
+	return "", ""
 }
